@@ -1,13 +1,13 @@
 /-
 C14 — "events are hints".  Model of ONE side of a sync entry as the event layer and `get_latest` see it.
 
-Sources (cloudsync, as of HEAD of /repo):
+Sources (cloudsync, line numbers as of /repo HEAD 03a413e with fixA.diff applied):
   * `SideState.__setattr__` / `_set_exists` / `uncorrupt`            state.py 109-133, 152-155, 219-222
-  * `SyncState.update` (existing / fresh entry, no `prior_oid`)      state.py 1119-1172
-  * `SyncState.update_entry` (the LIKELY_TRASHED rule at 1009-1015)  state.py 978-1024
+  * `SyncState.update` (existing / fresh entry, no `prior_oid`)      state.py 1125-1178
+  * `SyncState.update_entry` (the LIKELY_TRASHED rule at 1014-1021)  state.py 983-1030
   * `SyncEntry.get_latest`, `_last_gotten`                           state.py 638-657
-  * `SyncState.unconditionally_get_no_info`                          state.py 1354-1373
-  * `SyncState.unconditionally_get_latest`                           state.py 1375-1413
+  * `SyncState.unconditionally_get_no_info`                          state.py 1360-1379
+  * `SyncState.unconditionally_get_latest`                           state.py 1381-1419
   * `SyncEntry.is_creation`, `SideState.needs_sync`                  state.py 450-455, 185-191
   * `EventManager._process_event`, `_fill_event_path`                event.py 261-314, 333-340
 
@@ -111,14 +111,14 @@ def fresh (ot : OT) : Side :=
   { oid := none, path := none, hash := none, ex := .unknown, saved := none, otype := ot,
     changed := 0, lastGotten := 0, ign := .no }
 
-/-- `assert otype is not NOTKNOWN or not exists` (state.py 999) fails -/
+/-- `assert otype is not NOTKNOWN or not exists` (state.py 1004) fails -/
 def Event.raises (e : Event) : Bool := e.otype = .notknown ∧ e.ex = some true
 
 /-! `SyncState.update_entry(ent, side, oid, path=…, file_hash=…, exists=…, changed=t, otype=…, accurate=…)` as called
-    from `update` (state.py 978-1024), statement group by statement group.  `t` is the change time `mark_changed`
+    from `update` (state.py 983-1030), statement group by statement group.  `t` is the change time `mark_changed`
     assigns; `oidIsPath` is `providers[side].oid_is_path`; `norm` is `normalize_path_separators`. -/
 
-/-- 981-988: a discarded entry of a path-id provider is dropped for a new one; the id is assigned -/
+/-- 986-993: a discarded entry of a path-id provider is dropped for a new one; the id is assigned -/
 def aOid (oidIsPath : Bool) (s : Side) (e : Event) : Side :=
   match e.oid with
   | none => s
@@ -126,42 +126,43 @@ def aOid (oidIsPath : Bool) (s : Side) (e : Event) : Side :=
     let s := if s.ign.isDiscarded && oidIsPath && truthy e.path then fresh e.otype else s
     { s with oid := some o }
 
-/-- 990-991 -/
+/-- 995-996 -/
 def aType (s : Side) (e : Event) : Side :=
   if e.otype ≠ s.otype then { s with otype := e.otype } else s
 
-/-- 1001-1004 -/
+/-- 1006-1009 -/
 def aPath (norm : Path → Path) (s : Side) (e : Event) : Side :=
   match e.path with
   | none => s
   | some p => if some (norm p) ≠ s.path then { s with path := some (norm p) } else s
 
-/-- 1006-1007 -/
+/-- 1011-1012 -/
 def aHash (s : Side) (e : Event) : Side :=
   match e.hash with
   | none => s
   | some h => if some h ≠ s.hash then setHash s (some h) else s
 
-/-- 1009-1015: the LIKELY_TRASHED rule -/
+/-- 1014-1021: the LIKELY_TRASHED rule: a tombstone (TRASHED or LIKELY_TRASHED) is only ever replaced by another
+    "deleted" event; "exists" and "unknown" events leave it LIKELY_TRASHED until the truth is re-read -/
 def aEx (s : Side) (e : Event) : Side :=
-  if s.ex = .trashed ∧ e.ex = some true then setEx s .likely else setEx s (translate e.ex)
+  if (s.ex = .trashed ∨ s.ex = .likely) ∧ e.ex ≠ some false then setEx s .likely else setEx s (translate e.ex)
 
-/-- 1017-1023 (`changed` is always truthy here) -/
+/-- 1023-1029 (`changed` is always truthy here) -/
 def aChanged (s : Side) (e : Event) (t : Nat) : Side :=
   let s := { s with changed := t }
   if e.accurate then { s with lastGotten := t } else s
 
-/-- If the assertion at 999 fails the entry keeps what was assigned before it (oid, otype). -/
+/-- If the assertion at 1004 fails the entry keeps what was assigned before it (oid, otype). -/
 def applyEvent (oidIsPath : Bool) (norm : Path → Path) (s : Side) (e : Event) (t : Nat) : Side :=
   let s := aType (aOid oidIsPath s e) e
   if e.raises then s else aChanged (aEx (aHash (aPath norm s e) e) e) e t
 
 /-- `SyncState.update` for an id-stable id (no `prior_oid`): the entry indexed under the id, or a new one
-    (state.py 1123, 1167-1172) -/
+    (state.py 1129, 1173-1178) -/
 def update (oidIsPath : Bool) (norm : Path → Path) (found : Option Side) (e : Event) (t : Nat) : Side :=
   applyEvent oidIsPath norm (found.getD (fresh e.otype)) e t
 
-/-- `SyncState.unconditionally_get_no_info` (state.py 1354-1373) -/
+/-- `SyncState.unconditionally_get_no_info` (state.py 1360-1379) -/
 def noInfo (oidIsPath : Bool) (s : Side) : Side :=
   let s := if s.ex = .unknown then (if !oidIsPath then setEx s .trashed else s) else s
   let s := if s.ex = .likely then setEx s .trashed else s
@@ -171,27 +172,27 @@ def noInfo (oidIsPath : Bool) (s : Side) : Side :=
 def touch (s : Side) (now : Nat) : Side :=
   if s.ign = .no ∧ s.changed = 0 then { s with changed := now } else s
 
-/-! the branch of `unconditionally_get_latest` with a provider answer (state.py 1387-1413) -/
+/-! the branch of `unconditionally_get_latest` with a provider answer (state.py 1393-1419) -/
 
-/-- 1387-1390 -/
+/-- 1393-1396 -/
 def kHash (info : Info) (now : Nat) (s : Side) : Side :=
   if s.hash ≠ info.hash then touch (setHash s info.hash) now else s
 
-/-- 1394-1396 -/
+/-- 1400-1402 -/
 def kType (info : Info) (s : Side) : Side := { setEx s .present with otype := info.otype }
 
-/-- 1398-1400 -/
+/-- 1404-1406 -/
 def kFile (T : Truth) (o : Oid) (s : Side) : Side :=
   if s.otype = .file then (if s.hash = none then setHash s (T.hashOid o) else s) else s
 
-/-- 1406-1410 -/
+/-- 1412-1416 -/
 def kPath (norm : Path → Path) (info : Info) (now : Nat) (s : Side) : Side :=
   if s.path ≠ some (norm info.path) then touch { s with path := some (norm info.path) } now else s
 
 def known (norm : Path → Path) (T : Truth) (now : Nat) (o : Oid) (info : Info) (s : Side) : Side :=
   kPath norm info now (kFile T o (kType info (kHash info now s)))
 
-/-- `SyncState.unconditionally_get_latest(ent, side)` (state.py 1375-1413) -/
+/-- `SyncState.unconditionally_get_latest(ent, side)` (state.py 1381-1419) -/
 def getLatest (oidIsPath : Bool) (norm : Path → Path) (T : Truth) (now : Nat) (s : Side) : Side :=
   match s.oid with
   | none => if s.ex ≠ .trashed ∧ s.ex ≠ .missing then setEx s .unknown else s
